@@ -4,7 +4,10 @@ go 1.23.0
 
 require (
 	github.com/anishathalye/porcupine v1.3.0
+	github.com/golang/snappy v0.0.4
 	github.com/lni/dragonboat/v4 v4.0.0
+	github.com/lni/goutils v1.4.0
+	github.com/lni/vfs v0.2.1-0.20220616104132-8852fd867376
 )
 
 require (
@@ -19,7 +22,6 @@ require (
 	github.com/cockroachdb/redact v1.1.3 // indirect
 	github.com/getsentry/sentry-go v0.12.0 // indirect
 	github.com/gogo/protobuf v1.3.2 // indirect
-	github.com/golang/snappy v0.0.4 // indirect
 	github.com/google/btree v1.0.0 // indirect
 	github.com/google/uuid v1.3.0 // indirect
 	github.com/hashicorp/errwrap v1.0.0 // indirect
@@ -31,8 +33,6 @@ require (
 	github.com/hashicorp/memberlist v0.3.1 // indirect
 	github.com/kr/pretty v0.3.0 // indirect
 	github.com/kr/text v0.2.0 // indirect
-	github.com/lni/goutils v1.4.0 // indirect
-	github.com/lni/vfs v0.2.1-0.20220616104132-8852fd867376 // indirect
 	github.com/miekg/dns v1.1.26 // indirect
 	github.com/pierrec/lz4/v4 v4.1.14 // indirect
 	github.com/pkg/errors v0.9.1 // indirect
